@@ -938,6 +938,20 @@ func (e *SpecEnv) call(s *SExpr) SVal {
 				return SVal{Eq(held, IntLit(2)), boolT}
 			}
 			return SVal{TFalse, boolT}
+		case "atloop":
+			// atloop(N, expr): expr evaluated in the state in which loop N of this function was
+			// entered (before its first iteration); locals included
+			if len(s.Args) != 3 || s.Args[1].Kind != "int" {
+				e.fail("atloop wants (loop number, expression)")
+			}
+			var n int
+			fmt.Sscanf(s.Args[1].Name, "%d", &n)
+			if e.x == nil || e.x.loopEntry == nil || e.x.loopEntry[n] == nil {
+				e.fail("atloop: unknown identifier loop %d (not entered yet at this point)", n)
+			}
+			ne := *e
+			ne.cur = e.x.loopEntry[n]
+			return ne.eval(s.Args[2])
 		case "seqlen":
 			evalArgs()
 			return SVal{w.UF("sq.len", SInt, args[0].T), intT}
